@@ -39,7 +39,7 @@ ASSUMPTIONS = [
 
 NAMES = ["q0", "q1", "q2"]
 CLASSES = ["random", "exact-multiple", "multiple-plus-remainder", "constant-divisor", "univariate",
-           "incomparable-top", "per-element-leading", "number-on-the-left", "unordered-names"]
+           "incomparable-top", "per-element-leading", "number-on-the-left", "unordered-names", "divisor-only-name"]
 SPELL = ["function", "function", "operators", "reflected"]
 
 
@@ -71,7 +71,29 @@ def case_st(draw):
             # (symbols("q1,q0"), set_dimensions, polynomial_from_attributes(names=...) produce such)
             names = names[::-1] if len(names) == 2 else list(draw(st.permutations(names)))
     case = {"cls": cls, "spelling": draw(st.sampled_from(SPELL))}
+    if draw(st.integers(0, 2)) == 0:
+        # the division must terminate and be right under every setting of the options that touch it
+        # (retain_coefficients=True only makes it slow - exponentially so - and is left to C15's fixed programs)
+        case["opts"] = draw(st.sampled_from([{"retain_names": False}, {"retain_names": False}, {"sort_graded": False},
+                                             {"sort_reverse": True}, {"retain_names": False, "sort_reverse": True}]))
     size_b = gen.size_of(shp_b)
+    if cls == "divisor-only-name":
+        # an array divisor that brings a name the dividend does not have, with leading coefficients whose
+        # reciprocal is not exact in floating point; elements that are reduced sit next to elements that are not
+        dn = draw(st.sampled_from(["q0", "q1"]))
+        other = draw(st.sampled_from(["q2", "q5"] if dn == "q1" else ["q1", "q3"]))
+        n = draw(st.integers(2, 3))
+        lead = draw(st.lists(st.sampled_from([196, 12, 28, 3, 40, 0]), min_size=n, max_size=n))
+        oth = [draw(st.sampled_from([4, 8, -4])) if v == 0 or draw(st.integers(0, 2)) == 0 else 0 for v in lead]
+        const = draw(st.lists(st.sampled_from([0, 0, 4, -12]), min_size=n, max_size=n))
+        case["dividend"] = {"names": [dn], "shape": [] if draw(st.booleans()) else [n], "kind": "f", "retain": False,
+                            "terms": [[[draw(st.integers(1, 3))], [4] * (1 if True else n)], [[0], [draw(st.sampled_from([0, 4, 20]))]]]}
+        if case["dividend"]["shape"]:
+            case["dividend"]["terms"] = [[t[0], t[1] * n] for t in case["dividend"]["terms"]]
+        case["divisor"] = {"names": [dn, other], "shape": [n], "kind": "f", "retain": False,
+                           "terms": [[[1, 0], lead], [[0, 1], oth], [[0, 0], const]]}
+        case["opts"] = draw(st.sampled_from([{"retain_names": False}, {"retain_names": False}, {}]))
+        return case
     if cls == "unordered-names":
         # both operands carry the same name tuple in non-index order and are linear in both indeterminates,
         # so that every storage key also names a term when the columns are read in the other order
@@ -195,10 +217,14 @@ def check_case(case, ctx):
     ddb = numpy.broadcast_to(ddm, shape)
     dvb = numpy.broadcast_to(dvm, shape)
 
+    opts = case.get("opts") or {}
     hooks.clear_iterations()
     try:
-        out = numpoly.poly_divmod(dd, dv)
-    except hooks.DivisionLoop:
+        with numpoly.global_options(**opts):
+            out = numpoly.poly_divmod(dd, dv)
+    except hooks.DivisionLoop as err:
+        if opts:  # (own bucket: the option setting is part of what fails)
+            return fail("nonterminating:%s:options:%s" % (err.kind, ",".join(sorted(k for k, v in opts.items()))), str(err))
         raise
     except Exception as err:
         return fail("exception:%s:%s" % (type(err).__name__, cls), repr(err))
@@ -249,6 +275,8 @@ def check_case(case, ctx):
     sp = case["spelling"]
     if sp != "function":
         tag = sp + (",numpy-scalar-left" if isinstance(dd, numpy.generic) else "")
+        optctx = numpoly.global_options(**opts)
+        optctx.__enter__()
         try:
             if sp == "operators":
                 if not isinstance(dd, numpoly.ndpoly):
@@ -291,8 +319,12 @@ def check_case(case, ctx):
             if isinstance(dd, numpy.generic):
                 return fail("reflected:numpy-scalar-left", "numpy scalar on the left: %r" % (err,))
             return fail("operator-exception:%s:%s" % (type(err).__name__, tag), repr(err))
+        finally:
+            optctx.__exit__(None, None, None)
 
     ctx.label("class:" + cls)
+    if opts:
+        ctx.label("options:" + ",".join(sorted(opts)))
     nm = [n for d in (case.get("dividend"), case.get("divisor"), case.get("cofactor")) if d for n in [d.get("names")] if n]
     if any(list(n) != sorted(n, key=gen.var_num) for n in nm):
         ctx.label("names:not-index-ordered")
